@@ -7,7 +7,9 @@ C13 — Sparse Merkle state persists completely in its node storage.
    and loading at a root whose nodes are missing fails rather than producing a wrong tree."
 
 Stated on the storage-level model (`Model/SparseStore.lean`, the transcription of `merkle_tree.rs`),
-for every hash function `H` and every node store satisfying the finite-map laws (`StoreLaws`).
+for every hash function `H` and every node store satisfying the finite-map laws (`StoreLaws`); the invariant
+over all histories (`persistStatement_holds`, `reachable_load_roundtrip`, `reload_mid_history`) additionally
+needs `HashOK H` (collision-free on the tagged 65-byte inputs, never the zero sum) and 32-byte keys.
 -/
 import FuelVerif.Lemmas.SparseStore
 import FuelVerif.Lemmas.SparseRefine
